@@ -1,10 +1,12 @@
 package ethereum
 
 import (
+	"bytes"
 	"fmt"
 
 	"github.com/ethereum/go-ethereum/accounts/keystore"
 	"github.com/ethereum/go-ethereum/common"
+	"github.com/ethereum/go-ethereum/crypto"
 
 	"github.com/keep-network/keep-common/pkg/chain/ethereum/ethutil"
 	"github.com/keep-network/keep-core/pkg/chain"
@@ -20,6 +22,48 @@ func newSigner(chainKey *keystore.Key) *signer {
 	return &signer{
 		ethutil.NewSigner(chainKey.PrivateKey),
 	}
+}
+
+// Verify verifies the provided message against the signature using the
+// operator's key. See VerifyWithPublicKey.
+func (s *signer) Verify(message []byte, signature []byte) (bool, error) {
+	return s.VerifyWithPublicKey(message, signature, s.PublicKey())
+}
+
+// VerifyWithPublicKey verifies the provided message against the signature and
+// the public key. The embedded signer drops the recovery byte V before the
+// verification, but the contracts recover the signer's address from the
+// complete [R || S || V] signature. This is why the signature is accepted only
+// if it has 65 bytes and its V byte is the one, 27 or 28, that recovers the
+// provided public key.
+func (s *signer) VerifyWithPublicKey(
+	message []byte,
+	signature []byte,
+	publicKey []byte,
+) (bool, error) {
+	ok, err := s.EthereumSigner.VerifyWithPublicKey(message, signature, publicKey)
+	if err != nil || !ok {
+		return ok, err
+	}
+
+	if len(signature) != ethutil.SignatureSize {
+		return false, nil
+	}
+	v := signature[ethutil.SignatureSize-1]
+	if v != 27 && v != 28 {
+		return false, nil
+	}
+
+	prefixedHash := crypto.Keccak256(
+		[]byte(fmt.Sprintf("\x19Ethereum Signed Message:\n%v", len(message))),
+		message,
+	)
+	recovered, err := crypto.Ecrecover(
+		prefixedHash,
+		append(append([]byte{}, signature[:ethutil.SignatureSize-1]...), v-27),
+	)
+
+	return err == nil && bytes.Equal(recovered, publicKey), nil
 }
 
 // Address returns operator's address.
